@@ -43,7 +43,7 @@ def validate_persist(traces, tag, V):
             e = E[int(v["state"]["i"]) - 1]
             small = {k: e[k] for k in e if k not in ("before", "after")}
             V.add(key_of(e, v["state"]), "%s rejected by Persist.tla (%s %s): %s" % (e["key"], v["state"].get("verdict"), v["state"].get("detail"), json.dumps(small)[:500]),
-                  {"engine": "persist", "event": e})
+                  {"engine": "persist", "event": e}, src=p)
     return events
 
 
